@@ -94,6 +94,10 @@ def replay_bbox(c):
     sl = b.get_overlap_slices((c['ny'], c['nx']))
     exp = c['slices']
     if not exp:
+        from photutils.aperture import ApertureMask as _AM
+        sl0 = _AM(np.ones((iy1 - iy0, ix1 - ix0)), b).get_overlap_slices((c['ny'], c['nx']))
+        if not (sl0[0] is None and sl0[1] is None):
+            out.append(('overlap_slices_none_iff_no_common_pixel', {'what': 'mask.get_overlap_slices'}, {'case': c, 'got': repr(sl0)}))
         if not (sl[0] is None and sl[1] is None):
             out.append(('overlap_slices_none_iff_no_common_pixel', {'what': 'slices'}, {'case': c, 'got': repr(sl)}))
         return out
